@@ -91,7 +91,22 @@ func init() {
 			return "", err
 		}
 		b.WriteString(s + "\n")
-		b.WriteString("end NetVerif.Gen.C08\n")
+		b.WriteString("end NetVerif.Gen.C08\n\n")
+
+		// flow.go (outflow.available/take/add, ...): the translation of the `flow` extractor (c10_flow.go),
+		// emitted a second time under NetVerif.Gen.C08.Flow so that the C08/C09 proofs do not depend on
+		// Gen/Flow.lean, which the checks of C10/C11 rewrite.
+		fl, err := registry["flow"](repo, nil)
+		if err != nil {
+			return "", fmt.Errorf("flow: %w", err)
+		}
+		if strings.Count(fl, "NetVerif.Gen.Flow") != 2 {
+			return "", fmt.Errorf("flow: unexpected namespace structure")
+		}
+		if i := strings.Index(fl, "namespace NetVerif.Gen.Flow"); i >= 0 {
+			fl = fl[i:]
+		}
+		b.WriteString(strings.ReplaceAll(fl, "NetVerif.Gen.Flow", "NetVerif.Gen.C08.Flow"))
 		return b.String(), nil
 	})
 }
